@@ -34,6 +34,7 @@ class World(object):
         self.net = Net(self.sim, self.server, scenario.get('net', {}))
         self.rand = make_rng('rand', scenario.get('rand_seed', 0))
         self.calls = []
+        self.prop_id = scenario.get('_prop', 'C??')
         self.extra = []      # [(obj, attr, value)] patched for the run
 
     def api(self, name, fn, *args, **kw):
@@ -63,7 +64,7 @@ class World(object):
     def wait_until(self, pred, timeout_us=None, reason='wait'):
         return self.sim.block(pred, timeout_us, reason=reason, poll=True)
 
-    def run(self, build, wall_timeout=60.0):
+    def run(self, build, wall_timeout=30.0):
         seams.import_minecraft()
         gran = self.scenario.get('sched', {}).get('granularity', 'line')
         seams.instrument(granularity='instr' if gran == 'instr' else 'line')
